@@ -5,12 +5,15 @@
    item:   i:<ns>:<module>                      import statement in namespace <ns>
            r:<ns>:<n|g|p|gp>:<cond>             rule number j (j = count of earlier rule items), named r<j>
    cond:   atom (('&' | '|') atom)*             left-associative, the harness parenthesises the same way
-   atom:   T | F | z<N> (filesize > N) | s<hex> ($s) | n<hex> (not $s) | r<j> (rule j) | x<j> (not rule j)
+   atom:   T | F | U | z<N> (filesize > N) | s<hex> ($s) | n<hex> (not $s) | c<N>_<hex> (#s > N) | r<j> (rule j) | x<j> (not rule j)
+           every s/n/c atom defines one more hex string of its rule ($s0, $s1, … within the rule; global index =
+           definition order over all rules); upper case S/N/C: the string carries the `private` modifier
+   L:      YR_MAX_STRING_MATCHES of the library the harness is linked with (default 1000000)
    buf:    scan number k (k-th script) reads buffer number k mod #buffers
    script: word over c/a/e ("-" = empty): answer to the k-th message, CONTINUE afterwards
    x:      other scan flags the harness passes along (FAST_MODE, NO_TRYCATCH); no effect on the protocol
    f:      bit0 = REPORT_RULES_MATCHING, bit1 = REPORT_RULES_NOT_MATCHING (api=d: set_flags never called)
-   output: <id> <msg> … rc=<code> [| <msg> … rc=<code>]      msg: IMP:<m> MOD:<m> M:<ns>.<rule> N:<ns>.<rule> FIN -/
+   output: <id> <msg> … rc=<code> [| <msg> … rc=<code>]      msg: TM:<ns>.<rule>.$s<k> IMP:<m> MOD:<m> M:<ns>.<rule> N:<ns>.<rule> FIN -/
 import YaraModel.Model.Callback
 import Driver.Util
 namespace Driver.Cb
@@ -22,16 +25,37 @@ def isInfix (p s : List UInt8) : Bool :=
 def kv (toks : List String) (k : String) : Option String :=
   (toks.find? (·.startsWith (k ++ "="))).map fun t => (t.drop (k.length + 1)).toString
 
-def parseAtom (buf : List UInt8) (a : String) : Option Cond :=
+/-- a string of the rule set: pattern, rule it belongs to, its number within the rule -/
+structure Str where
+  pat : List UInt8
+  rule : Nat
+  k : Nat
+
+structure Prog where
+  rules : List SRule       -- reversed while parsing
+  imports : List String    -- reversed while parsing
+  strs : List Str          -- reversed while parsing
+
+/-- atoms that define a string get the next string index (`YR_STRING.idx`: definition order) -/
+def parseAtom (buf : List UInt8) (ridx : Nat) (strs : List Str) (a : String) : Option (SCond × List Str) :=
+  let nloc := (strs.filter (·.rule == ridx)).length
+  let idx := strs.length
   match a.toList with
-  | ['T'] => some (.lit true)
-  | ['F'] => some (.lit false)
-  | ['U'] => some (.lit false)     -- `uint8(100000) == 1`: undefined ⇒ does not hold (and/or treat it as false)
-  | 'z' :: n => (String.ofList n).toNat?.map fun k => .lit (decide (buf.length > k))
-  | 's' :: h => (Driver.unhex (String.ofList h)).map fun p => .str (p != [] && isInfix p buf)
-  | 'n' :: h => (Driver.unhex (String.ofList h)).map fun p => .not (.str (p != [] && isInfix p buf))
-  | 'r' :: n => (String.ofList n).toNat?.map .rule
-  | 'x' :: n => (String.ofList n).toNat?.map fun j => .not (.rule j)
+  | ['T'] => some (.lit true, strs)
+  | ['F'] => some (.lit false, strs)
+  | ['U'] => some (.lit false, strs)     -- `uint8(100000) == 1`: undefined ⇒ does not hold (and/or treat it as false)
+  | 'z' :: n => (String.ofList n).toNat?.map fun k => (.lit (decide (buf.length > k)), strs)
+  | 's' :: h | 'S' :: h => (Driver.unhex (String.ofList h)).map fun p => (.str idx, ⟨p, ridx, nloc⟩ :: strs)
+  | 'n' :: h | 'N' :: h => (Driver.unhex (String.ofList h)).map fun p => (.not (.str idx), ⟨p, ridx, nloc⟩ :: strs)
+  | 'c' :: t | 'C' :: t =>
+    match (String.ofList t).splitOn "_" with
+    | [n, h] => do
+        let k ← n.toNat?
+        let p ← Driver.unhex h
+        pure (.cnt idx k, ⟨p, ridx, nloc⟩ :: strs)
+    | _ => none
+  | 'r' :: n => (String.ofList n).toNat?.map fun j => (.rule j, strs)
+  | 'x' :: n => (String.ofList n).toNat?.map fun j => (.not (.rule j), strs)
   | _ => none
 
 /-- split "a&b|c" into atoms and operators -/
@@ -43,38 +67,42 @@ def splitCond (s : String) : List String × List Char :=
       else go t (c :: cur) atoms ops
   go s.toList [] [] []
 
-def parseCond (buf : List UInt8) (s : String) : Option Cond :=
+def parseCond (buf : List UInt8) (ridx : Nat) (strs : List Str) (s : String) : Option (SCond × List Str) :=
   match splitCond s with
   | (a :: as, ops) => do
-      let c0 ← parseAtom buf a
-      let rec go (acc : Cond) : List String → List Char → Option Cond
-        | [], [] => some acc
+      let (c0, st0) ← parseAtom buf ridx strs a
+      let rec go (acc : SCond) (st : List Str) : List String → List Char → Option (SCond × List Str)
+        | [], [] => some (acc, st)
         | b :: bs, o :: os => do
-            let c ← parseAtom buf b
-            go (if o = '&' then .and acc c else .or acc c) bs os
+            let (c, st') ← parseAtom buf ridx st b
+            go (if o = '&' then .and acc c else .or acc c) st' bs os
         | _, _ => none
-      go c0 as ops
+      go c0 st0 as ops
   | _ => none
 
 def parseKind : String → Option (Bool × Bool)
   | "n" => some (false, false) | "g" => some (true, false)
   | "p" => some (false, true) | "gp" => some (true, true) | _ => none
 
-structure Prog where
-  rules : List Rule
-  imports : List String
-
 def parseItems (buf : List UInt8) : List String → Prog → Option Prog
-  | [], p => some ⟨p.rules.reverse, p.imports.reverse⟩
+  | [], p => some ⟨p.rules.reverse, p.imports.reverse, p.strs.reverse⟩
   | it :: its, p =>
     match Driver.parts it with
     | ["i", _, m] => parseItems buf its { p with imports := m :: p.imports }
     | ["r", ns, k, c] => do
         let n ← ns.toNat?
         let (g, pr) ← parseKind k
-        let cd ← parseCond buf c
-        parseItems buf its { p with rules := ⟨n, g, pr, cd⟩ :: p.rules }
+        let (cd, st) ← parseCond buf p.rules.length p.strs c
+        parseItems buf its { p with rules := ⟨n, g, pr, cd⟩ :: p.rules, strs := st }
     | _ => none
+
+/-- occurrences in scan order: the automaton reports an occurrence when it has consumed its last byte
+    (end position ascending; the generator keeps the ends of warning-triggering occurrences apart) -/
+def events (buf : List UInt8) (strs : List Str) : List Nat :=
+  (List.range (buf.length + 1)).flatMap fun e =>
+    strs.zipIdx.filterMap fun (st, i) =>
+      let l := st.pat.length
+      if l ≠ 0 ∧ l ≤ e ∧ (buf.drop (e - l)).take l == st.pat then some i else none
 
 def parseScript (s : String) : Option (List Ret) :=
   if s == "-" then some [] else
@@ -84,7 +112,11 @@ def parseScript (s : String) : Option (List Ret) :=
 def nsName : Nat → String
   | 0 => "default" | 1 => "a" | 2 => "b" | n => "ns" ++ toString n
 
-def showMsg (rs : List Rule) : Msg → String
+def showMsg (rs : List SRule) (strs : List Str) : Msg → String
+  | .tooManyMatches s =>
+    match strs[s]? with
+    | some st => "TM:" ++ nsName ((rs[st.rule]?.map (·.ns)).getD 99) ++ ".r" ++ toString st.rule ++ ".$s" ++ toString st.k
+    | none => "TM:?"
   | .importModule m => "IMP:" ++ m
   | .moduleImported m => "MOD:" ++ m
   | .ruleMatching i => "M:" ++ nsName ((rs[i]?.map (·.ns)).getD 99) ++ ".r" ++ toString i
@@ -92,10 +124,10 @@ def showMsg (rs : List Rule) : Msg → String
   | .scanFinished => "FIN"
 
 def showRc : Rc → String
-  | .success => "rc=OK" | .callbackError => "rc=CALLBACK_ERROR"
+  | .success => "rc=OK" | .callbackError => "rc=CALLBACK_ERROR" | .tooManyMatches => "rc=TOO_MANY_MATCHES"
 
-def showScan (rs : List Rule) (r : List Msg × Rc) : String :=
-  " ".intercalate (r.1.map (showMsg rs) ++ [showRc r.2])
+def showScan (rs : List SRule) (strs : List Str) (r : List Msg × Rc) : String :=
+  " ".intercalate (r.1.map (showMsg rs strs) ++ [showRc r.2])
 
 def handle (line : String) : String :=
   match Driver.toks line with
@@ -107,12 +139,14 @@ def handle (line : String) : String :=
       let bufs ← ((← kv rest "buf").splitOn "/").mapM Driver.unhex
       let its := ((← kv rest "items").splitOn ";").filter (· ≠ "")
       -- scan number k reads buffer number k mod #buffers; atoms are decided per buffer
-      let progs ← bufs.mapM fun b => parseItems b its ⟨[], []⟩
+      let progs ← bufs.mapM fun b => parseItems b its ⟨[], [], []⟩
+      let limit := ((kv rest "L").bind (·.toNat?)).getD 1000000      -- YR_MAX_STRING_MATCHES of the build
       let scripts ← ((← kv rest "scripts").splitOn "/").mapM parseScript
       let fl := if api == "d" then defaultFlags else setFlags (f % 2 == 1) (f / 2 % 2 == 1)
       let outs ← scripts.zipIdx.mapM fun (s, k) => do
         let p ← progs[k % progs.length]?
-        pure (showScan p.rules (scan p.rules p.imports fl s))
+        let b ← bufs[k % bufs.length]?
+        pure (showScan p.rules p.strs (fullScan limit (events b p.strs) p.rules p.imports fl s))
       pure (" | ".intercalate outs)
     id ++ " " ++ res.getD "BADCASE"
 
